@@ -206,7 +206,10 @@ func (ex *Exec) ensureInit(pkg *ssa.Package) {
 
 func (ex *Exec) callFunction(caller *frame, fn *ssa.Function, args []Value, env []Value) Value {
 	if h := lookupIntrinsic(fn); h != nil {
-		return h(ex, caller, fn, args)
+		if r := h(ex, caller, fn, args); r != Value(passThrough) {
+			return r
+		}
+		// the intrinsic only guards the call: interpret the body
 	}
 	if fn.Blocks == nil {
 		// external without body
